@@ -68,9 +68,14 @@ def sview_of(d):
         return "Sp" + name
     return None
 
+def sview_of_ma(d):
+    if d[0] in ("Eft", "Pfe") and d[2] == E:
+        return "(Sp%s %d %s)" % (d[0], d[1], d_coq(d[3]))
+    return None
+
 def coq_spec_check(pid, cases):
     """the implementation's outputs against the Coq specification functions the theorems are stated with (SpecExec.v)"""
-    sel = [(c, sview_of(c.desc)) for c in cases if c.obs and c.ctor_ok and all(o[0] == "u" and o[1] == 0 for o in c.ops)]
+    sel = [(c, sview_of(c.desc) or sview_of_ma(c.desc)) for c in cases if c.obs and c.ctor_ok and all(o[0] == "u" and o[1] == 0 for o in c.ops)]
     sel = [(c, sv) for c, sv in sel if sv and all(b.kind in ("S", "N") for b in c.obs)]
     if not sel:
         return [], {"coq_spec_cases": 0}
@@ -82,7 +87,7 @@ def coq_spec_check(pid, cases):
         for c, sv in sh_:
             outs = "; ".join("None" if b.kind == "N" else "Some %s" % cq(b.val) for b in c.obs)
             items.append("mkscase %s [%s] [%s]" % (sv, "; ".join(cq(x) for x in c.inputs()), outs))
-        bodies.append("From Coq Require Import List ZArith QArith.\nFrom SF Require Import Exec SpecExec.\nImport ListNotations.\nClose Scope Q_scope. Close Scope Z_scope.\n"
+        bodies.append("From Coq Require Import List ZArith QArith.\nFrom SF Require Import Models Exec SpecExec.\nImport ListNotations.\nClose Scope Q_scope. Close Scope Z_scope.\n"
                       "Definition cases : list scase := [\n" + ";\n".join(items) + "\n].\nEval vm_compute in (check_scases cases).\n")
     res = run_coq_shards(pid + "_spec", bodies)
     viols = []
